@@ -527,4 +527,67 @@ example :
       = [0, 1, 2] := by
   refine ⟨⟨lit "CMD SETFORMAT 1\x00", ?_, ?_, ?_⟩, ?_, ?_⟩ <;> first | decide +kernel | rfl
 
+section
+open OsmoVerif.World.Sched
+/-! ## Non-vacuity (Part B) -/
+
+/-- the demo state is initial for both transceivers -/
+example : Initial 0 (demoState 100) ∧ Initial 1 (demoState 100) :=
+  ⟨⟨rfl, by decide +kernel⟩, ⟨rfl, by decide +kernel⟩⟩
+
+/-- a tick without interference: after the three arrivals and 13 clock actions the clock thread is
+idle again, with the same outcomes as the sequential tick -/
+example :
+    (exec (demoState 100) (demoArrivalActs ++ clks 13)).pc = Pc.idle ∧
+    (sghost (demoState 100) (demoArrivalActs ++ clks 13) 0).g.log =
+      (ghost (demoWorld 100) (demoArrivals ++ [Op.tick]) 0).log ∧
+    (sghost (demoState 100) (demoArrivalActs ++ clks 13) 0).g.ids = [2] ∧
+    (exec (demoState 100) (demoArrivalActs ++ clks 13)).w.clkSrc = some 101 ∧
+    (exec (demoState 100) (demoArrivalActs ++ clks 13)).stale = 1 := by
+  decide +kernel
+
+/-- POWEROFF racing the tick, after the locked section (3 clock actions: begin, read `running`,
+locked section): the waiting burst 2 is cleared, the due burst 0 is STILL emitted in frame 100 and
+forwarded to the peer (one datagram), the passed burst 1 is still reported stale; transceiver 0 is
+not running any more -/
+example :
+    (exec (demoState 100) (demoArrivalActs ++ clks 3)).pc = Pc.loop 100 0 [demoMsg 100] [demoMsg 90] [1] ∧
+    (sghost (demoState 100) (demoArrivalActs ++ clks 3 ++ [Act.ctrl 0 5800 demoPoweroff] ++ clks 12) 0).g.log.drop 3 =
+      [Event.cleared 2, Event.emitted 0 100, Event.stale 1 100] ∧
+    (exec (demoState 100) (demoArrivalActs ++ clks 3 ++ [Act.ctrl 0 5800 demoPoweroff] ++ clks 12)).out.length = 1 ∧
+    runningOf (exec (demoState 100) (demoArrivalActs ++ clks 3 ++ [Act.ctrl 0 5800 demoPoweroff] ++ clks 12)).w 0 = false := by
+  decide +kernel
+
+/-- POWEROFF racing the tick, between the read of `running` and the locked section: everything is
+cleared, the locked section finds an empty queue, nothing is emitted -/
+example :
+    (exec (demoState 100) (demoArrivalActs ++ clks 2)).pc = Pc.lock 100 0 [1] ∧
+    (sghost (demoState 100) (demoArrivalActs ++ clks 2 ++ [Act.ctrl 0 5800 demoPoweroff] ++ clks 12) 0).g.log.drop 3 =
+      [Event.cleared 0, Event.cleared 1, Event.cleared 2] ∧
+    (exec (demoState 100) (demoArrivalActs ++ clks 2 ++ [Act.ctrl 0 5800 demoPoweroff] ++ clks 12)).out.length = 0 := by
+  decide +kernel
+
+/-- an arrival racing the tick: the burst for frame 100 arrives after the locked section of tick
+100 — it stays queued until that tick is over (5 more clock actions) and is reported stale by tick
+101; arriving before the locked section it is emitted in tick 100 -/
+example :
+    (sghost (demoState 100) (clks 3 ++ [Act.data 0 (demoBurst 100)] ++ clks 5) 0).g.ids = [3] ∧
+    (exec (demoState 100) (clks 3 ++ [Act.data 0 (demoBurst 100)] ++ clks 5)).pc = Pc.idle ∧
+    (sghost (demoState 100) (clks 3 ++ [Act.data 0 (demoBurst 100)] ++ clks 5) 0).g.log =
+      [Event.accepted 3 (demoMsg 100)] ∧
+    (sghost (demoState 100) (clks 3 ++ [Act.data 0 (demoBurst 100)] ++ clks 10) 0).g.log =
+      [Event.accepted 3 (demoMsg 100), Event.stale 3 101] ∧
+    (sghost (demoState 100) (clks 2 ++ [Act.data 0 (demoBurst 100)] ++ clks 11) 0).g.log =
+      [Event.accepted 2 (demoMsg 100), Event.emitted 2 100] := by
+  decide +kernel
+
+/-- the wrap under the interleaving semantics: clock 2715647, burst for FN 0 -/
+example :
+    (sghost (demoState 2715647) ([Act.data 0 (demoBurst 0)] ++ clks 9) 0).g.ids = [0] ∧
+    (exec (demoState 2715647) ([Act.data 0 (demoBurst 0)] ++ clks 9)).w.clkSrc = some 0 ∧
+    (sghost (demoState 2715647) ([Act.data 0 (demoBurst 0)] ++ clks 9 ++ clks 4) 0).g.log =
+      [Event.accepted 0 (demoMsg 0), Event.emitted 0 0] := by
+  decide +kernel
+end
+
 end OsmoVerif.Props.C03
